@@ -43,6 +43,131 @@ func c17OpName(a int) string {
 	return fmt.Sprintf("clock+%v", c17Adv[a-c17NW-1])
 }
 
+// ---- schedules: compaction-driven expiry of an Event against a client writing that Event ----
+//
+// The expiry decides from the revision it read; a client that updates (or deletes and re-creates) the
+// Event meanwhile makes it young again.  Whatever the interleaving, afterwards the key is wholly
+// there or wholly gone: reads, the stored records and a guarded write agree.
+
+func c17SchedScenario(writer string) *mc.Scenario {
+	return &mc.Scenario{Name: "C17/sched/expiry-vs-" + writer, Body: func(x *mc.X) {
+		backend.VerifSetEventsTTL(c17TTL)
+		defer backend.VerifSetEventsTTL(3600)
+		kv, release, err := hx.AcquireEngine(hx.Mem)
+		if err != nil {
+			panic(err)
+		}
+		w := &world{engine: hx.Mem}
+		w.cleanup = func() { release(!w.clean) }
+		defer w.close()
+		w.kv = hx.NewDeco(kv, false)
+		w.kv.NoTTL = true // compaction-driven expiry
+		w.b = backend.NewBackend(w.kv, backend.Config{Prefix: "/r", Identity: "n1", WatchCacheSize: 64}, hx.NopMetrics{})
+		w.b.SetCurrentRevision(base)
+		vrt.Quiesce()
+		key, other := c17Keys[0], c17Keys[1]
+		c0 := &clientOp{Key: key, Kind: rCreate, Val: "e1"}
+		w.do(c0)
+		vrt.Quiesce()
+		p0 := &clientOp{Key: other, Kind: rCreate, Val: "p1"}
+		w.do(p0)
+		vrt.Quiesce()
+		if !c0.OK || !p0.OK {
+			panic("setup writes failed")
+		}
+		// a first compaction mark, then more than the TTL passes: the next compaction expires the Event
+		if _, err := w.b.Compact(bg, 0); err != nil {
+			panic(err)
+		}
+		vrt.Quiesce()
+		vrt.Advance((c17TTL + 1) * time.Second)
+		vrt.Quiesce()
+		var ops []*clientOp
+		vrt.BeginExplore()
+		t1 := vrt.Go(func() {
+			if _, err := w.b.Compact(bg, 0); err != nil {
+				x.Fail("C17|compact-error|memkv-without-native-ttl", "%v", err)
+			}
+		})
+		t2 := vrt.Go(func() {
+			switch writer {
+			case "update":
+				op := &clientOp{Key: key, Kind: rUpdOK, Exp: c0.Hdr, Val: "e2"}
+				ops = append(ops, op)
+				w.do(op)
+			default: // delete, then create again
+				d := &clientOp{Key: key, Kind: rDelOK, Exp: c0.Hdr}
+				ops = append(ops, d)
+				w.do(d)
+				c := &clientOp{Key: key, Kind: rCreate, Val: "e3"}
+				ops = append(ops, c)
+				w.do(c)
+			}
+		})
+		vrt.Join(t1)
+		vrt.Join(t2)
+		vrt.Quiesce()
+		vrt.EndExplore()
+		// what the clients were told: the newest acknowledged write of the Event
+		var last *clientOp
+		var outs []string
+		for _, op := range ops {
+			if op.OK {
+				last = op
+			}
+			outs = append(outs, fmt.Sprintf("%s:%v/%v", reqNames[op.Kind], op.OK, op.Err != nil))
+		}
+		g, gerr := w.b.Get(bg, &proto.GetRequest{Key: []byte(key)})
+		l, lerr := w.b.List(bg, &proto.RangeRequest{Key: []byte("/r/events/"), End: []byte("/r/events0")})
+		if gerr != nil || lerr != nil {
+			x.Fail("C17|read-error|memkv-without-native-ttl", "Get: %v, List: %v", gerr, lerr)
+			return
+		}
+		var listed *proto.KeyValue
+		for _, kv := range l.Kvs {
+			if string(kv.Key) == key {
+				listed = kv
+			}
+		}
+		nrec := 0
+		for _, r := range w.dump() {
+			if !r.Raw && r.Key == key {
+				nrec++
+			}
+		}
+		desc := fmt.Sprintf("client outcomes %v; point read %v, range read %v, %d records stored", outs, g.Kv, listed, nrec)
+		switch {
+		case (g.Kv == nil) != (listed == nil) || (g.Kv != nil && (g.Kv.Revision != listed.Revision || string(g.Kv.Value) != string(listed.Value))):
+			x.Fail("C17|event-partly-removed|point-and-range-read-disagree|memkv-without-native-ttl", "%s", desc)
+		case g.Kv == nil && nrec != 0 && (last == nil || last.Kind.isDelete()):
+			// (a tombstone written by an acknowledged delete may legitimately remain)
+			if last == nil {
+				x.Fail("C17|event-partly-removed|memkv-without-native-ttl", "the Event reads absent but records of it are left: %s", desc)
+			}
+		case g.Kv != nil && last != nil && !last.Kind.isDelete() && !kvEq(g.Kv, last.Val, last.Hdr):
+			x.Fail("C17|acknowledged-write-of-a-young-event-lost|memkv-without-native-ttl", "the newest acknowledged write is %s=%q at revision %d: %s", key, last.Val, int64(last.Hdr)-base, desc)
+		case g.Kv == nil && last != nil && !last.Kind.isDelete():
+			x.Fail("C17|event-removed-before-ttl|memkv-without-native-ttl", "the Event was written at revision %d just now (acknowledged) but reads absent: %s", int64(last.Hdr)-base, desc)
+		}
+		// the key takes a guarded write that matches what it reads as
+		probe := &clientOp{Key: key, Kind: rCreate, Val: "probe"}
+		if g.Kv != nil {
+			probe = &clientOp{Key: key, Kind: rUpdOK, Exp: g.Kv.Revision, Val: "probe"}
+		}
+		w.do(probe)
+		vrt.Quiesce()
+		if probe.Err != nil || !probe.OK {
+			x.Fail("C17|event-partly-removed|not-writable-as-it-reads|memkv-without-native-ttl", "%s on the Event (expecting %d) answered succeeded=%v err=%v although: %s", reqNames[probe.Kind], int64(probe.Exp)-base, probe.OK, probe.Err, desc)
+		}
+		// the plain key is untouched
+		if pg, err := w.b.Get(bg, &proto.GetRequest{Key: []byte(other)}); err != nil || !kvEq(pg.Kv, "p1", p0.Hdr) {
+			x.Fail("C17|non-event-key-changed|memkv-without-native-ttl", "%s reads %v (err %v)", other, pg.GetKv(), err)
+		}
+		x.Obs = fmt.Sprintf("%v present=%v", outs, g.Kv != nil)
+		w.clean = true
+	}}
+}
+
 func c17Run(cfgIdx int, hist []int) *mc.SeqOut {
 	cfg := c17Cfgs[cfgIdx]
 	out := &mc.SeqOut{}
@@ -228,10 +353,23 @@ func init() {
 	mc.Register(&mc.Property{
 		ID:     "C17",
 		Level:  "model_checking",
-		Rule:   "every history up to depth 4 (thorough 5) over {create, update, delete on an Event key, a plain key and three look-alike keys (an 'events' segment deeper in the path, a sibling directory whose name begins with 'events'); compaction; the clock advancing by TTL-1s, 1s, TTL+1s} on memkv without native TTL (compaction-driven expiry), memkv with native TTL (timers on the virtual clock) and (thorough) tikv-mock; after every step every key is compared with the versioned-map model: non-Event keys must never change, an Event may read absent only if its newest change is at least TTL old and then no record of it may be left and it must be creatable again; the watcher must see the clients' writes only",
+		Rule:   "every history up to depth 4 (thorough 5) over {create, update, delete on an Event key, a plain key and three look-alike keys (an 'events' segment deeper in the path, a sibling directory whose name begins with 'events'); compaction; the clock advancing by TTL-1s, 1s, TTL+1s} on memkv without native TTL (compaction-driven expiry), memkv with native TTL (timers on the virtual clock) and (thorough) tikv-mock; after every step every key is compared with the versioned-map model: non-Event keys must never change, an Event may read absent only if its newest change is at least TTL old and then no record of it may be left and it must be creatable again; the watcher must see the clients' writes only; plus every schedule (preemption-bounded) of the compaction that expires an old Event against a client updating it (or deleting and re-creating it): afterwards point read, range read, stored records and a guarded write agree, an acknowledged young write is not lost, the plain key is untouched",
 		Assume: []string{"TTL set to 10 s through the injected setter; virtual clock", "Event keys are the keys under <prefix>/events/ (the property's definition)"},
 		Exec:   func(j *mc.Job) *mc.JobResult { return mc.SeqExec(j, c17Run) },
+		Scenarios: func(tier string) []*mc.Scenario {
+			return []*mc.Scenario{c17SchedScenario("update"), c17SchedScenario("delete-create")}
+		},
 		Drive: func(c *mc.Ctx) {
+			full := c.Deadline
+			c.Deadline = c.Start.Add(full.Sub(c.Start) / 4)
+			mc.DriveSchedules(c, func(i int, sc *mc.Scenario) mc.SchedPlan {
+				p := mc.SchedPlan{Class: "expiry-vs-writer", Bounds: []int{0, 1}, Shard: true}
+				if c.Tier == "thorough" {
+					p.Bounds = []int{0, 1, 2}
+				}
+				return p
+			})
+			c.Deadline = full
 			depth := 4
 			cfgs := []int{0, 1}
 			if c.Tier == "thorough" {
